@@ -140,6 +140,10 @@ class World(object):
                     s = self.hub.limit(2)
                 elif w == "skip1":
                     s = self.hub.skip(1)
+                elif w == "filterodd":
+                    s = self.hub.filter(PRED["odd"])
+                elif w == "append78":
+                    s = self.hub.append([7, 8])
                 else:
                     s = self.hub.map(f_map)
                 H.append(s)
@@ -321,7 +325,8 @@ def record_history(ctx, al, length):
         elif op == "use":
             if len(live) >= maxh:
                 continue
-            e.update(w=rng.choice(["use", "limit2", "skip1", "map"]))
+            w_ = rng.choice(["use", "limit2", "skip1", "map", "append78"] + ([] if hub_endless else ["filterodd"]))
+            e.update(w=w_)
         elif op == "hpeek":
             n = tok()
             e.update(n=n)
